@@ -55,8 +55,22 @@ def _seg_pred(b, fs):
         e = _frame_labels(b["estimated_intervals"], b["estimated_labels"], fs)
     except Exception:
         return {}
-    return {"n": len(r), "ref_distinct": _all_distinct(r), "est_distinct": _all_distinct(e),
-            "ref_single": len(set(r)) == 1, "est_single": len(set(e)) == 1}
+    out = {"n": len(r), "ref_distinct": _all_distinct(r), "est_distinct": _all_distinct(e),
+           "ref_single": len(set(r)) == 1, "est_single": len(set(e)) == 1}
+    # off the dyadic grid the frame count itself can differ by one between exact
+    # and floating-point division (10.5 / 0.1): also describe the longer variant
+    try:
+        from fractions import Fraction as F
+        t = F(len(r)) * F(float(fs))
+        end = max(float(np.max(b["reference_intervals"])), float(np.max(b["estimated_intervals"])))
+        if float(t) < end:
+            r2 = r + ofr.fold([ofr.label_at(b["reference_intervals"], b["reference_labels"], t, None)])
+            e2 = e + ofr.fold([ofr.label_at(b["estimated_intervals"], b["estimated_labels"], t, None)])
+            out["ref_single_alt"] = len(set(r2)) == 1
+            out["est_single_alt"] = len(set(e2)) == 1
+    except Exception:
+        pass
+    return out
 
 
 def _pattern_pred(ref, est, tol):
@@ -100,7 +114,9 @@ def mechanism(fn, kind, clause, b, idx):
             if kind == "rand" and clause == "nan" and p.get("n", 2) <= 1:
                 return "fewer-than-two-frames"
             if kind == "nmi" and clause == "below-0" and (
-                    p.get("ref_single") != p.get("est_single")):
+                    p.get("ref_single") != p.get("est_single") or
+                    ("ref_single_alt" in p and
+                     p.get("ref_single_alt") != p.get("est_single_alt"))):
                 return "one-side-single-label-rounding-noise"
         if clause == "not-a-real-scalar" and fn in ("segment.rand_index", "segment.ari"):
             if np.asarray(b["reference_intervals"]).size == 0 or \
